@@ -65,13 +65,14 @@ PROPS = {
             "protocol::dp::ShiftedTruncatedDiscreteLaplace::{new,sample_shares} (BA8/BA16/BA32, both directions)",
             "protocol::dp::NoiseParams::new",
             "protocol::ipa_prf::oprf_padding::insecure::OPRFPaddingDp::{new,get_shift}, distributions::TruncatedDoubleGeometric::new",
+            "oprf_padding::insecure::find_smallest_n (search loop; right_hand_side replaced by an arbitrary function of n)",
             "distributions::{Geometric,DoubleGeometric,TruncatedDoubleGeometric}::sample with rand::distributions::Bernoulli::sample (scripted trial outcomes)",
         ],
         "bounds": "every sample of the support 0..=2*shift, every shift <= 2^20 with 2*shift < 2^width, widths 8/16/32, both directions; all non-NaN f64 / u32 parameter values for the validators; sampler structure (sample == first draw shift+G1-G2 inside 0..=2*shift) for every outcome of the first 6 Bernoulli trials per call (later trials succeed) and every shift <= 10^6",
-        "outside_claim": "the Bernoulli trial probability 1-exp(-1/s) and hence the numeric (epsilon, delta) law, find_smallest_n minimality, achieved delta (libm powf/exp, unbounded search, probabilities); NaN parameters; dummy-record generation (async)",
+        "outside_claim": "the Bernoulli trial probability 1-exp(-1/s) and the tail-mass formula right_hand_side (libm powf), hence the numeric (epsilon, delta) law, achieved delta (libm powf/exp, unbounded search, probabilities); NaN parameters; dummy-record generation (async)",
         "assumptions": ["the truncated sampler is replaced by its contract: an arbitrary value of 0..=2*shift (share-mapping harnesses)",
                         "sampler-structure harnesses: the RNG is a script whose first 6 draws are 0 or u64::MAX by symbolic choice (Bernoulli success / failure for any 0 < p < 1), later draws succeed",
-                        "OPRFPaddingDp::new / get_shift stubbed in the mapping harnesses (shift symbolic); find_smallest_n stubbed to 'some n >= sensitivity' in the validator harness",
+                        "OPRFPaddingDp::new / get_shift stubbed in the mapping harnesses (shift symbolic); find_smallest_n stubbed to 'some n >= sensitivity' in the validator harness; in the search harness right_hand_side is a symbolic table for the first 4 candidates and 0 afterwards (the search then ends at sensitivity+4 at the latest)",
                         "logging (tracing) and alloc::fmt::format are stubbed out"],
     },
     "C13": {
